@@ -227,6 +227,15 @@ def run(ctx):
             rp.append(" ".join(toks))
         run_scenario(ctx, "repart", "drv_repart", rp, P, K)
         run_scenario(ctx, "repart_late", "drv_repart", rp[:6], P, max(2, K // 2), late_us=20000)      # some row messages sent 20 ms late
+    # distributed MIS-2 / aggregation on a ladder whose two rails live on different ranks: > 1000 boundary rows per exchange
+    R = ctx.scale(1500, 3000); nv = 2 * R
+    tr = [(i, i, 4) for i in range(nv)]
+    for i in range(R - 1): tr += [(i, i + 1, -1), (i + 1, i, -1), (R + i, R + i + 1, -1), (R + i + 1, R + i, -1)]
+    for i in range(R): tr += [(i, R + i, -2), (R + i, i, -2)]
+    lit = [nv, nv, 2, 0, R, nv, 0, R, nv, len(tr)] + [x for t3 in tr for x in t3]
+    keys = ["%d/%d" % ((i * 7919) % (4 * nv) + 1, 8 * nv) for i in range(nv)]
+    aggline = " ".join(str(x) for x in ["abig", "par", 0] + lit + lit + [nv] + keys)
+    run_scenario(ctx, "agg_big", "drv_agg", [aggline], 2, 2, timeout=180)
     # messages above the eager limit, one-directional chains, back-to-back exchanges on the same package, late receivers:
     # a send buffer reused before its send completed shows up as a mixed vector
     for P in ctx.scale([3], [2, 3, 4, 6]):
